@@ -393,6 +393,93 @@ fn c03_case(ctx: &Ctx, case: u64, acc: &mut Acc) -> Verdict {
     Ok(())
 }
 
+/// A newcomer announces and leaves again right away: before its Feed arrives (it has no active member
+/// yet, but the seed already lists it), just after, or a little later.
+fn c03_leave_early(ctx: &Ctx, case: u64, acc: &mut Acc) -> Verdict {
+    let mut r = Rng64::derive(ctx.seed, 0xC03E, case);
+    let n = r.range(2, 6) as usize; // members of the formed cluster
+    let p = 3 * R;
+    let cfg = Cfg {
+        p,
+        r: R,
+        k: r.range(1, 3) as usize,
+        tx: r.range(1, 10) as u8,
+        s2d: r.range(2, 4) * p,
+        rda: 86_400_000_000,
+        mps: 1400,
+        notify_down: r.chance(1, 2),
+        pa: None,
+        pad: None,
+        pg: if r.chance(1, 2) { Some((p / 2, 2)) } else { None },
+    };
+    let Some(mut f) = formed(r.next(), n, &cfg, Renew::None, (1, R / 4), acc)? else {
+        acc.inconclusive += 1;
+        return Ok(());
+    };
+    let x = f.sim.add(n as u16, cfg.clone(), Renew::None, HdlCfg::disabled(), None);
+    let xid = f.sim.nodes[x].node.id();
+    let seed_node = r.usize(n);
+    let dst = f.sim.nodes[seed_node].node.id();
+    let mut nop = |_: &Sim, _: usize, _: &CallRec| -> Result<(), V> { Ok(()) };
+    f.sim.call(x, Op::Announce(dst), acc)?;
+    // leave after: nothing / half a latency / the Feed round trip / a couple of periods
+    let delay = match case % 4 {
+        0 => 0,
+        1 => R / 8,
+        2 => R / 2 + r.below(R / 4),
+        _ => r.range(p, 3 * p),
+    };
+    let t = f.sim.now + delay;
+    f.sim.run_until(t, acc, &mut nop)?;
+    let had_members = f.sim.nodes[x].node.last.num_members;
+    let rec = f.sim.call(x, Op::Leave, acc)?;
+    let t_leave = f.sim.now;
+    ensure!(rec.res == Res::Ok, "C03/leave-error", "leave_cluster returned {:?}", rec.res);
+    ensure!(rec.has_note(&N::Defunct), "C03/leaver-not-defunct", "leave_cluster (with {had_members} active members known) did not notify Defunct");
+    f.sim.nodes[x].left_at = Some(t_leave);
+    let total = n + 1;
+    let bound = t_leave + (2 * total as u64 + 1) * p + cfg.s2d;
+    let mut watch = |s: &Sim, i: usize, rec: &CallRec| -> Result<(), V> {
+        if s.nodes[i].left_at.is_some() {
+            for (to, d) in rec.sends() {
+                if let Ok((h, _)) = wire::decode_header(s.codec, d) {
+                    ensure!(
+                        !matches!(h.message, Message::Ack(_) | Message::IndirectAck { .. } | Message::ForwardedAck { .. } | Message::IndirectPing { .. } | Message::Feed | Message::Ping(_) | Message::PingReq { .. }),
+                        "C03/leaver-still-answers",
+                        "{:?} left the cluster {}us ago (knowing {had_members} members at the time) but sent {:?} to {to:?}",
+                        s.nodes[i].node.id(),
+                        s.now - t_leave,
+                        h.message
+                    );
+                }
+            }
+            ensure!(!rec.has_note(&N::Active), "C03/leaver-active-again", "{:?} reported Active after leaving", s.nodes[i].node.id());
+        }
+        Ok(())
+    };
+    f.sim.run_until(bound + (2 * total as u64 + 3) * p, acc, &mut watch)?;
+    // whoever came to list the leaver must report it down in time, and must not list it at the end
+    for i in 0..n {
+        let ups: Vec<u64> = f.sim.nodes[i].notes.iter().filter(|(_, nn)| *nn == N::MemberUp(xid)).map(|(t, _)| *t).collect();
+        let downs: Vec<u64> = f.sim.nodes[i].notes.iter().filter(|(_, nn)| *nn == N::MemberDown(xid)).map(|(t, _)| *t).collect();
+        if let Some(t_up) = ups.first() {
+            ensure!(!downs.is_empty(), "C03/memberdown-missing", "instance {i} learned about {xid:?} (which left {delay}us after announcing) but never reported it Down");
+            // the statement's bound runs from the failure for those that listed the member then; an instance that
+            // only hears of the (already gone) member later through stale gossip gets the same allowance from then
+            let deadline = bound.max(*t_up + (2 * total as u64 + 1) * p + cfg.s2d);
+            ensure!(downs[0] <= deadline, "C03/memberdown-late", "instance {i} reported the early leaver Down {} periods after the bound", (downs[0] - deadline) / p);
+        }
+        ensure!(!f.sim.lists(i, x), "C03/leaver-still-listed", "instance {i} still lists the leaver {xid:?} as active at the end");
+    }
+    acc.tally("early_leave_cases", 1);
+    if had_members == 0 {
+        acc.tally("early_leaves_before_first_member_known", 1);
+    }
+    acc.nontrivial(fp(&("early", case, n, delay, had_members)));
+    acc.sample(|| json!({"workload": "leave_early", "n": n, "leave_delay_us": delay, "members_known_at_leave": had_members}));
+    Ok(())
+}
+
 // ------------------------------------------------------------------ C04
 
 fn c04_envelope_cfg(n: usize, notify: bool) -> Cfg {
@@ -685,7 +772,10 @@ pub fn c03() -> Check {
         rule: "per configuration (n in 2..=7 quick / 2..=10 thorough, suspect_to_down_after 2..5 periods, seeds) a formed fault-free run is rebuilt deterministically and a fault is injected after a swept number of further events (24 slots covering more than one full probe rotation of every member): singletons, pairs and random subsets up to n-1 members crash or call leave_cluster. Oracle: every survivor that listed a failed member notifies MemberDown by t_fail+(2n+1)P+S2D, no survivor is ever declared Down, recipients of a leaver's farewell report it within one latency, the leaver sends no probe traffic afterwards. Distinct by (configuration, fault slot, subset).",
         assumptions: &["latency < probe_rtt/4, timers on time; remove_down_after far beyond the horizon"],
         required: &["crash_faults", "leave_faults"],
-        workloads: vec![Workload { name: "crash", f: c03_case, quick: 2_400, thorough: 240_000, flav: Flav::Checked }],
+        workloads: vec![
+            Workload { name: "crash", f: c03_case, quick: 2_400, thorough: 240_000, flav: Flav::Checked },
+            Workload { name: "leave_early", f: c03_leave_early, quick: 800, thorough: 80_000, flav: Flav::Checked },
+        ],
         exhaustive: false,
     }
 }
